@@ -432,7 +432,8 @@ EXTRAS3 = {
  "C13": ("Ebu.Spec.Flow", FLOWHDR +
     fl("flow_persist_shape", "persistShape", "`persistEvent` reports a marshal failure and returns before any append; makes ONE append attempt in no loop (no retry); writes `lastOffset` only under `saveErr == nil`; reports an append failure once, after the lock is released; cancels the timeout context by `defer`")),
  "C14": ("Ebu.Spec.Flow", FLOWHDR +
-    fl("flow_sqlite_append_shape", "sqliteShape", "SQLite `Append` makes one Exec and takes the offset from that Exec's result")),
+    fl("flow_sqlite_append_shape", "sqliteShape", "SQLite `Append` makes one Exec and takes the offset from that Exec's result") + "\n" +
+    fl("flow_migration_is_transactional", "migrateShape", "the schema is created inside one transaction with a deferred rollback that fires when an error is returned, every statement on the transaction, commit last; and only when the recorded version is below 1")),
  "C18": ("Ebu.Spec.Flow", FLOWHDR +
     fl("flow_materializer_shape", "materializerShape", "`Materializer.Apply` writes `lastOffset` only after a control message or an error-free change was applied; a reset clears every collection under the lock and calls `onReset` afterwards; an unknown entity type is an error only in strict mode")),
  "C19": ("Ebu.Spec.Flow", FLOWHDR +
